@@ -93,7 +93,7 @@ class SpanActionContext(ActionContext):
         for span_processor in self.trigger_context.config.span_processors:
             try:
                 span = span_processor.create_span(name, self.trigger_context.id, self.location_action.tracepoint.id)
-                if span:
+                if span is not None:
                     spans.append(span)
             except Exception:
                 # a failing span processor must not stop the other processors from creating their span
